@@ -69,7 +69,9 @@ func genBase(rt *rapid.T, fam string) *Scenario {
 		sc.Target["router"] = strings.Join(tgt, "\n") + "\n"
 		sc.HostKey = rapid.Bool().Draw(rt, "hostkey")
 	case "panos":
-		p := panm.GenPair(rt, panm.GenOpts{})
+		// every second PAN-OS device has two vsys (failures, markers and
+		// changes may then hit one of them only)
+		p := panm.GenPair(rt, panm.GenOpts{TwoVsys: rapid.Bool().Draw(rt, "twoVsys")})
 		sc.Device = p.A.State(true).Print(panm.Spelling{})
 		sc.Target["router"] = p.B.State(false).Print(panm.Spelling{})
 		sc.Members = []httpdev.PanMember{{}}
